@@ -23,9 +23,7 @@ def proved_where(mism, case):
     lab = mism.get('label', '')
     t = lab.split(':')[-1].split('#')[0]
     is_enum = ' enum ' in (' ' + case.get('item', '').split('{')[0] + ' ')
-    if t in ('Debug', 'Default'):
-        return not is_enum
-    return t not in ('Deref', 'DerefMut')
+    return True   # every builder's where-clause is proved equal to the documented walk (Props/C04, Props/C04Enum)
 
 
 def extra_cmp_l2(fam, kinds, nq, nt, laws=False):
@@ -363,7 +361,8 @@ PROPS = {
         level_text='partial: Lean theorems that the where-clause threaded by the builders is the declarative walk and that with no bound(..) it consists of the declared predicates plus exactly the used field types mentioning a parameter (proved for Clone and Copy; the other traits are tied by L1 only so far); L1 compares every where-clause token for token',
     ),
     'C04': dict(
-        theorems=[(CMP + 'C04', ['DX.clone_struct_where', 'DX.clone_enum_where', 'DX.copy_enum_where', 'DX.copy_struct_where',
+        theorems=[(CMP + 'C04Enum', ['DX.debug_enum_where', 'DX.default_enum_where', 'DX.default_enum_where_value', 'DX.debugExpr_where', 'DX.deref_where']),
+                  (CMP + 'C04', ['DX.clone_struct_where', 'DX.clone_enum_where', 'DX.copy_enum_where', 'DX.copy_struct_where',
                                  'DX.ops_where', 'DX.default_struct_where', 'DX.default_struct_where_value', 'DX.debug_struct_where', 'DX.selBounds_walk', 'DX.cmp_struct_where', 'DX.cmp_enum_where', 
                                  'DX.declared_where_retained', 'DX.empty_bound_stops', 'DX.absent_level_skipped',
                                  'DX.dots_level_continues', 'DX.plain_level_stops', 'DX.stop_is_local']),
